@@ -205,7 +205,7 @@ theorem matchedStep_E {cfg : Cfg} {startT : Option Tree} {sn : Option (Option Na
         simp only [Bool.and_eq_true] at hend
         split at heq
         · simp at heq
-        · simp at heq
+        · split at heq <;> simp at heq
         · rename_i v3 hlab
           split at heq
           · simp at heq
@@ -481,7 +481,7 @@ theorem main0Match_E {f : F} (hf : FE env.tbl f) {fuel : Nat} {cfg : Cfg} {scope
     (heq : main0Match env f fuel cfg scope s = (.tuple content, s')) :
     WFL env.tbl content ∧ CfgOK env.tbl cfg content := by
   unfold main0Match at heq
-  generalize hb : blockMatch env f fuel cfg (s.enter scope) = br at heq
+  generalize hb : blockMatch env f fuel cfg ((ghostIf (s.sym.clashes scope) Ghost.nameClash s).enter scope) = br at heq
   obtain ⟨r0, s2⟩ := br
   cases r0 with
   | raise e =>
